@@ -1,13 +1,23 @@
 from pyvc.runner import register_modules
 
-register_modules("C05", "bounded.C05_api")
+register_modules("C05", "contracts.C05_session", "bounded.C05_api")
 LEVEL = "other"
-EXPLANATION = ("Finite-domain step contract: all (mode, session state, closing flag, SType, open-transaction relation) steps and the "
-               "connect/close/disable steps are executed on the real HsmsProtocol and compared with the E37 table; the frame audit "
-               "shows no other code writes the session state, so the per-step result extends to every history by induction. "
-               "System bytes and message bodies are sampled (opaque parameters); thread interleavings are not covered.")
+EXPLANATION = ("(VC) the real message handler HsmsProtocol._on_connection_message_received - with the nine __handle_hsms_requests* methods, "
+               "the send_*_rsp helpers and the header/message constructors inlined - is verified against the E37 step table for every "
+               "(SType, session state, closing flag) and ALL header field values (2^32 system bytes, session id, stream, function, W-bit, body) "
+               "and any set of open transactions: next state, exactly one matching response / Reject with the request's system bytes, "
+               "Reject 'not selected' for data outside SELECTED, delivery exactly once in SELECTED, responses routed to exactly the requester. "
+               "(FD) the assumed contracts of ConnectionStateMachine.select/deselect are validated on the real machine from every state; all steps "
+               "incl. connect / peer close / local disable are executed on a real protocol object in both connect modes; a frame audit shows no other "
+               "code writes the session state. (BND) every history up to length 6 over {connect, close, Select/Deselect/Separate.req, data} and random "
+               "longer histories run against the E37 oracle - this is what notices state that survives a disconnect (caches, flags). "
+               "Thread interleavings (a Select.req in flight while the connection is accepted) are not covered.")
 ASSUMPTIONS = [
     "oracle: DESIGN.md Appendix A.1 (transcription of SEMI E37 from the property statement and the code's transition comments, A-ORACLE)",
-    "harness: MemConnection, SyncDispatcher, VirtualTimer; HsmsProtocol._send_select_req_thread neutralised in the harness process",
-    "system bytes / bodies sampled at boundary values (handlers only copy, compare and use them as dict keys)",
+    "call-outs assumed at call sites: Protocol.send_message records the frame handed to the send path; Queue.put_nowait on the requester's queue; "
+    "EventProducer.fire; StreamsFunctions.decode (only used for logging) returns or raises; ConnectionStateMachine.select/deselect as validated by FD",
+    "event handlers registered by the application do not re-enter the protocol (call-out contracts have no re-entrancy)",
+    "Select.req in SELECTED / Deselect.req in NOT SELECTED: the response is sent, then WrongSourceStateError escapes to the dispatcher (state unchanged); "
+    "the status byte E37 asks for in these cases is not part of the property and is not judged",
+    "harness for FD/BND: MemConnection, SyncDispatcher, VirtualTimer; HsmsProtocol._send_select_req_thread neutralised in the harness process",
 ]
